@@ -116,6 +116,21 @@ pub fn scopes() -> Vec<Scope> {
         approver: "approver1",
         exec: "exec1",
     });
+    // 3: one-unit fees (rates of 1 % on totals of 30 … 100): fee shares that round to 0 or to the
+    //    whole fee, bids whose fee is used up while base remains
+    v.push(Scope {
+        name: "tinyfee",
+        inst: base_inst(0, 10, Some(("0.01", "askfee1")), Some(("0.01", "bidfee1"))),
+        markers: BTreeMap::new(),
+        attrs: BTreeMap::new(),
+        ask_prices: vec!["3", "5"],
+        bid_prices: vec!["5", "6"],
+        seller: "seller1",
+        seller2: "seller2",
+        buyer: "buyer1",
+        approver: "approver1",
+        exec: "exec1",
+    });
     v
 }
 
@@ -183,6 +198,14 @@ pub fn alphabet(sc: &Scope, asks: &[(String, AskOrderV1)], bids: &[(String, BidO
     }
     // create bids
     let rate = info.bid_fee_info.as_ref().and_then(|f| D::parse(&f.rate));
+    // a bid id that is taken: a second, fully funded bid under it from somebody else
+    if hasb(B1) {
+        if let Some(total) = D::parse(sc.bid_prices[0]).and_then(|d| d.times(sizes[0])) {
+            let fee_amt = rate.and_then(|r| r.fee_of(total)).unwrap_or(0);
+            let fee = if fee_amt > 0 { Some(coin(fee_amt, quote.clone())) } else { None };
+            v.push(ex("mallory", funds_for(sc, &quote, total + fee_amt), ExecuteMsg::CreateBid { id: s(B1), base: info.base_denom.clone(), fee, price: s(sc.bid_prices[0]), quote: quote.clone(), quote_size: Uint128::new(total), size: Uint128::new(sizes[0]) }));
+        }
+    }
     for (id, prices) in [(B1, &sc.bid_prices[..]), (B2, &sc.bid_prices[..1]), (A1, &sc.bid_prices[..1])] {
         if hasb(id) || (id == A1 && !has(A1)) {
             continue;
@@ -484,6 +507,66 @@ pub fn run(scope_idx: usize, max_states: usize, threads: usize, mut sink: impl F
         depth += 1;
     }
     (BfsOut { states: states.len(), edges, accepted, depth, stats }, None)
+}
+
+/// deep random walks inside one universe: from instantiation, at every visited state the whole
+/// alphabet is attempted (as in the breadth-first exploration) and one accepted request, chosen
+/// by a PRNG that depends only on (scope, walk index, seed), is followed – reaching states many
+/// operations deep that the capped frontier cannot.  `want`: return the history of that label.
+pub fn walks(scope_idx: usize, n_walks: usize, depth: usize, seed: u64, mut sink: impl FnMut(&str), want: Option<&str>) -> (BfsOut, Option<History>) {
+    let all = scopes();
+    let sc = &all[scope_idx % all.len()];
+    let mut stats = Stats::default();
+    let mut w0 = World::new();
+    let start0 = Start::Instantiate { markers: sc.markers.clone(), attrs: sc.attrs.clone(), msg: sc.inst.clone() };
+    w0.start("bfs_walk_init", &start0);
+    let s0 = match extract(&w0) {
+        Some(x) => x,
+        None => return (BfsOut { states: 0, edges: 0, accepted: 0, depth: 0, stats }, None),
+    };
+    let (mut edges, mut accepted, mut visited) = (0u64, 0u64, 0usize);
+    for wi in 0..n_walks {
+        let mut rng = crate::gen::Rng(seed ^ ((scope_idx as u64 + 1) << 48) ^ (wi as u64).wrapping_mul(0x9E37_79B9_7F4A_7C15));
+        let mut st = s0.clone();
+        for d in 0..depth {
+            let label = format!("bfs_{}_w{}_{}", sc.name, wi, d);
+            let h = explore_history(sc, &label, &st);
+            if want == Some(label.as_str()) {
+                return (BfsOut { states: visited, edges, accepted, depth, stats }, Some(h));
+            }
+            let mut w = World::new();
+            w.start(&h.label, &h.start);
+            let mut succ: Vec<SeedState> = vec![];
+            for step in &h.steps {
+                if let Step::Try { sender, funds, msg } = step {
+                    edges += 1;
+                    if let Some(after) = w.do_try(sender, funds, msg) {
+                        accepted += 1;
+                        if let Some(ns) = extract_raw(&after) {
+                            succ.push(ns);
+                        }
+                    }
+                    w.stats.steps += 1;
+                } else {
+                    w.step(step);
+                }
+            }
+            visited += 1;
+            if want.is_none() {
+                sink(&w.trace);
+            }
+            stats.merge(&w.stats);
+            // prefer successors that keep orders on the book (deep order histories), avoid self loops
+            let cur = serde_json::to_string(&st).unwrap();
+            let moving: Vec<&SeedState> = succ.iter().filter(|x| serde_json::to_string(*x).unwrap() != cur).collect();
+            if moving.is_empty() {
+                break;
+            }
+            let busy: Vec<&&SeedState> = moving.iter().filter(|x| !x.asks.is_empty() || !x.bids3.is_empty()).collect();
+            st = if !busy.is_empty() && rng.pct(85) { (**rng.pick(&busy)).clone() } else { (*rng.pick(&moving)).clone() };
+        }
+    }
+    (BfsOut { states: visited, edges, accepted, depth, stats }, None)
 }
 
 fn extract_raw(raw: &crate::world::Raw) -> Option<SeedState> {
